@@ -16,4 +16,4 @@ Definition spec_op (o : mathop) : FoldSpec.op :=
 Definition spec_eval (o : mathop) (x y : Z) : Z := FoldSpec.eval (spec_op o) x y.
 Extraction Language OCaml.
 Extraction "rvmodel.ml"
-  operate all_mathops imm_from_str csrimm_from_str lui_imm wrap32 to_u32 lit_value spec_eval lex_all parse_from_file dir_names inst_name gen_cfg_upto run_items cfg_error_loc lint_title lint_severity lint_description lint_name all_lintcodes parse_error_title cfg_error_title ser_graph gen_full_cfg display_pretty format_region fields output_order.
+  operate all_mathops imm_from_str csrimm_from_str lui_imm wrap32 to_u32 lit_value spec_eval lex_all parse_from_file dir_names inst_name gen_cfg_upto run_items cfg_error_loc lint_title lint_severity lint_description lint_name all_lintcodes parse_error_title cfg_error_title ser_graph gen_full_cfg display_pretty format_region fields output_order math_op scalar_op inst_from_str.
